@@ -209,12 +209,8 @@ theorem bfs_translated (ord : Ord) (hord : ∀ (k : Nat) (l : List Nd), (ord k l
         fuel [start] [] (fun u hu => absurd hu List.not_mem_nil) (Nat.le_of_succ_le hμ) hstart
       exact Reach.mem_of_closed h3 (h2 start List.mem_cons_self) (Reach.congr (fun a b => (hadj a b).symm) h)
 
-/-- FULL STATEMENT (not proved in round 3): for every `ord` as above, `nodes`, `edges` and fuel ≥ the bound of
-`bfs_translated` for `symm edges`, `connected_components fuel ord nodes edges` answers `KeyError` exactly when the model's
-`connectedComponents nodes edges` does, and otherwise a list of duplicate-free components that are, position by
-position, permutations of the model's.  Missing: the lemma that the adjacency dict built by `g[n1].add(n2)` /
-`g[n2].add(n1)` holds the out-neighbours of `symm edges` (lookups after `pyDictModify`), and the `for n in nodes` loop
-invariant over `bfs_translated`.  Proved here: the branch without edges (hypothesis `edges = []`). -/
+/-- the branch of `_connected_components` without edges (the full theorem `connected_components_translated` is in
+TranslatedComponents.lean). -/
 theorem connected_components_translated_partial (fuel : Nat) (ord : Ord) (nodes : List Nd) :
     Verif.Trans.C07.connected_components fuel ord nodes []
       = .ok (nodes.map (fun n => [n])) ∧
